@@ -202,7 +202,7 @@ def run_c02(ctx):
     devs = known_devs(FAMILY_PROPS)
     aspects = {"data", "errors", "opchoice", "calls", "precedence"}
     # (family abstract: interface / union typed fields need Go type bindings, so it runs on the reflection strategy in its six binding modes only)
-    fams = COMMON + ["mixed", "abstract"] + (["fault2", "dirs"] if ctx.tier == "thorough" else [])
+    fams = COMMON + ["mixed", "abstract", "forms"] + (["fault2", "dirs"] if ctx.tier == "thorough" else [])
     vecs, uni, devs = enumerate_cases(ctx, fams)
     rep = replay(ctx, vecs, uni, "replay-3-strategies", strategies="iface,any,refl")
     absorb(ctx, rep, "replay-3-strategies", aspects, devs, ctx.prop)
@@ -221,7 +221,7 @@ def run_c02(ctx):
 def run_c08(ctx):
     devs = known_devs(FAMILY_PROPS)
     aspects = {"data", "calls"}
-    vecs, uni, devs = enumerate_cases(ctx, ["abstract", "absops", "defectabs", "inline1", "inline2", "spread"])
+    vecs, uni, devs = enumerate_cases(ctx, ["abstract", "absops", "forms", "defectabs", "inline1", "inline2", "spread"])
     rep = replay(ctx, vecs, uni, "replay-refl", strategies="refl")
     absorb(ctx, rep, "replay-refl", aspects, devs, ctx.prop)
     record_and_judge(ctx, uni, "record-refl-abstract", aspects, devs, ctx.prop, 1200 if ctx.tier == "quick" else 12000,
